@@ -25,3 +25,15 @@ theories/Check/Common.vos theories/Check/Common.vok theories/Check/Common.requir
 theories/Check/C10.vo theories/Check/C10.glob theories/Check/C10.v.beautified theories/Check/C10.required_vo: theories/Check/C10.v theories/Base/Str.vo theories/Base/KV.vo theories/Model/Doc.vo theories/Model/Dom.vo theories/Model/Pointer.vo theories/Check/Common.vo
 theories/Check/C10.vio: theories/Check/C10.v theories/Base/Str.vio theories/Base/KV.vio theories/Model/Doc.vio theories/Model/Dom.vio theories/Model/Pointer.vio theories/Check/Common.vio
 theories/Check/C10.vos theories/Check/C10.vok theories/Check/C10.required_vos: theories/Check/C10.v theories/Base/Str.vos theories/Base/KV.vos theories/Model/Doc.vos theories/Model/Dom.vos theories/Model/Pointer.vos theories/Check/Common.vos
+theories/Model/Equals.vo theories/Model/Equals.glob theories/Model/Equals.v.beautified theories/Model/Equals.required_vo: theories/Model/Equals.v theories/Base/Str.vo theories/Base/KV.vo theories/Model/Doc.vo
+theories/Model/Equals.vio: theories/Model/Equals.v theories/Base/Str.vio theories/Base/KV.vio theories/Model/Doc.vio
+theories/Model/Equals.vos theories/Model/Equals.vok theories/Model/Equals.required_vos: theories/Model/Equals.v theories/Base/Str.vos theories/Base/KV.vos theories/Model/Doc.vos
+theories/Proofs/EqualsProofs.vo theories/Proofs/EqualsProofs.glob theories/Proofs/EqualsProofs.v.beautified theories/Proofs/EqualsProofs.required_vo: theories/Proofs/EqualsProofs.v theories/Base/Str.vo theories/Base/KV.vo theories/Model/Doc.vo theories/Model/Equals.vo
+theories/Proofs/EqualsProofs.vio: theories/Proofs/EqualsProofs.v theories/Base/Str.vio theories/Base/KV.vio theories/Model/Doc.vio theories/Model/Equals.vio
+theories/Proofs/EqualsProofs.vos theories/Proofs/EqualsProofs.vok theories/Proofs/EqualsProofs.required_vos: theories/Proofs/EqualsProofs.v theories/Base/Str.vos theories/Base/KV.vos theories/Model/Doc.vos theories/Model/Equals.vos
+theories/Properties/C05.vo theories/Properties/C05.glob theories/Properties/C05.v.beautified theories/Properties/C05.required_vo: theories/Properties/C05.v theories/Base/Str.vo theories/Base/KV.vo theories/Model/Doc.vo theories/Model/Equals.vo theories/Proofs/EqualsProofs.vo
+theories/Properties/C05.vio: theories/Properties/C05.v theories/Base/Str.vio theories/Base/KV.vio theories/Model/Doc.vio theories/Model/Equals.vio theories/Proofs/EqualsProofs.vio
+theories/Properties/C05.vos theories/Properties/C05.vok theories/Properties/C05.required_vos: theories/Properties/C05.v theories/Base/Str.vos theories/Base/KV.vos theories/Model/Doc.vos theories/Model/Equals.vos theories/Proofs/EqualsProofs.vos
+theories/Check/C05.vo theories/Check/C05.glob theories/Check/C05.v.beautified theories/Check/C05.required_vo: theories/Check/C05.v theories/Base/Str.vo theories/Base/KV.vo theories/Model/Doc.vo theories/Model/Equals.vo theories/Check/Common.vo
+theories/Check/C05.vio: theories/Check/C05.v theories/Base/Str.vio theories/Base/KV.vio theories/Model/Doc.vio theories/Model/Equals.vio theories/Check/Common.vio
+theories/Check/C05.vos theories/Check/C05.vok theories/Check/C05.required_vos: theories/Check/C05.v theories/Base/Str.vos theories/Base/KV.vos theories/Model/Doc.vos theories/Model/Equals.vos theories/Check/Common.vos
